@@ -178,6 +178,36 @@ def compare_dims(obj, d):
     return None
 
 
+def compare_axis(obj, data, ax):
+    """Data.get_axis_values(axis) against the spec's slice keys (C11)."""
+    import verif.axis
+    name = ax["a"]
+    try:
+        with quiet():
+            vals = [float(v) for v in data.get_axis_values(verif.axis.get(name))]
+    except SystemExit:
+        return "get_axis_values(%s) ended in an error exit" % name
+    except Exception as e:
+        return "get_axis_values(%s): %r" % (name, e)
+    keys = [float(k) for k in ax["keys"]]
+    if len(vals) != len(keys):
+        return "%s: expected %d slices %r, observed %d %r" % (name, len(keys), keys, len(vals), vals)
+    if name in ("lat", "lon", "elev"):
+        # one slice per location, labelled by the first input's metadata of that location
+        meta = {"lat": "lat", "lon": "lon", "elev": "elev"}[name]
+        first = obj["inputs"][0]
+        lab = [float(first[meta][first["locs"].index(s)]) for s in obj["locs"]]
+        return None if vals == lab else "%s labels: expected %r observed %r" % (name, lab, vals)
+    if name == "dayofyear":
+        # envelope: strictly increasing in calendar order; the spec's own numbering is one admissible choice
+        if sorted(vals) != vals or len(set(vals)) != len(vals):
+            return "dayofyear values not strictly increasing: %r" % vals
+        return None
+    if name in ("no", "threshold", "obs", "fcst"):
+        return None
+    return None if vals == keys else "%s: expected %r observed %r" % (name, keys, vals)
+
+
 def nontrivial_c01(obj):
     """some cell is missing in one input and present in another (same field)"""
     ins = obj["inputs"] + ([obj["clim"]] if obj.get("hasClim") else [])
@@ -245,6 +275,11 @@ def check_dataset(job):
         div("dims", msg, observed=d)
         return out
     grid = len(obj["times"]) * len(obj["leads"]) * len(obj["locs"])
+    for ax in obj.get("axes", []):
+        msg = compare_axis(obj, data, ax)
+        out["n"] += 1
+        if msg:
+            div("axis-values:%s" % ax["a"], msg)
     rtol = RTOL32 if fmt != "text" else RTOL
     for r in obj["req"]:
         try:
